@@ -1,3 +1,4 @@
+from copy import deepcopy
 from numbers import Number
 
 import numpy as np
@@ -37,6 +38,30 @@ def _is_bool_array_index(index):
     return len(index) == 1 and np.issubdtype(np.asarray(index[0]).dtype, np.bool_)
 
 
+def _own_index(index):
+    """Returns `index` as a tuple whose array-like (mutable) entries are copies, so that
+    later changes to an index-array do not change what is back-propagated through.
+
+    Parameters
+    ----------
+    index : valid-array-index
+
+    Returns
+    -------
+    Tuple[Any, ...]"""
+    if not isinstance(index, tuple):
+        index = (index,)
+    return tuple(
+        (
+            # (a tensor stays a tensor: numpy must interpret the copy as it did the original)
+            ind.copy()
+            if isinstance(ind, np.ndarray) or hasattr(ind, "__array_ufunc__")
+            else (deepcopy(ind) if isinstance(ind, list) else ind)
+        )
+        for ind in index
+    )
+
+
 class GetItem(Operation):
     """Defines the __getitem__ interface for a Tensor, supporting back-propagation
 
@@ -63,7 +88,11 @@ class GetItem(Operation):
         numpy.ndarray
             The array returned by the get-item operation"""
         self.variables = (a,)
-        self.index = index if isinstance(index, tuple) else (index,)
+        self.index = (
+            _own_index(index)
+            if _tracking.TRACK_GRAPH
+            else (index if isinstance(index, tuple) else (index,))
+        )
         out = a.data[index]
 
         self._used_distinct_indices = (
@@ -142,7 +171,11 @@ class SetItem(Operation):
         in which a single element is set multiple times."""
 
         self.variables = (a, b)
-        self.index = index if isinstance(index, tuple) else (index,)
+        self.index = (
+            _own_index(index)
+            if _tracking.TRACK_GRAPH
+            else (index if isinstance(index, tuple) else (index,))
+        )
         out[index] = b.data
         return out
 
